@@ -232,10 +232,23 @@ fn one_pass<T: Sc, F: Factory<T>>(sc: &Scenario, rep: &mut RunReport, first: boo
                 if faulted {
                     had_failed_update = true;
                     rep.probe("failed_update_in_history");
+                    // whatever the problem still reports after the failed update must be a
+                    // function of the parameters it reports (e.g. a model that stored the
+                    // new vector before failing: values of the previous vector are garbage)
+                    if snap_now.resid.is_some() || snap_now.coeff.is_some() {
+                        rep.probe("values_present_after_failed_update");
+                        let alpha: Vec<T> = snap_now.params.iter().map(|b| T::of_bits(*b)).collect();
+                        if let Ok(Ok(fr)) = guarded(|| fresh::<T, F>(&r.world, &alpha, st.par_after, false)) {
+                            compared += 1;
+                            if fr.snap.resid != snap_now.resid || fr.snap.coeff != snap_now.coeff {
+                                rep.violate(sc, "HISTORY_DEPENDENCE", "SetParams/failed-update", format!("after the failed update at op {} the problem reports residuals/coefficients that are not those of a fresh problem at the parameters it reports", st.op));
+                            }
+                        }
+                    }
                 } else {
                     // compare with a freshly built problem at the α the problem reports
                     let alpha: Vec<T> = a.iter().map(|v| T::of(v.0)).collect();
-                    match guarded(|| fresh::<T, F>(&r.world, &alpha, sc.parallel && !converted_before(sc, st.op), false)) {
+                    match guarded(|| fresh::<T, F>(&r.world, &alpha, st.par_after, false)) {
                         Ok(Ok(fr)) => {
                             compared += 1;
                             if fr.snap != *snap_now {
@@ -293,7 +306,7 @@ fn one_pass<T: Sc, F: Factory<T>>(sc: &Scenario, rep: &mut RunReport, first: boo
                         let alpha: Vec<T> = snap_now.params.iter().map(|b| T::of_bits(*b)).collect();
                         // only meaningful if the current cache belongs to a clean update
                         if state_clean {
-                            if let Ok(Ok(fr)) = guarded(|| fresh::<T, F>(&r.world, &alpha, sc.parallel && !converted_before(sc, st.op), true)) {
+                            if let Ok(Ok(fr)) = guarded(|| fresh::<T, F>(&r.world, &alpha, st.par_after, true)) {
                                 compared += 1;
                                 if fr.jac.as_ref() != Some(j) {
                                     rep.violate(
@@ -337,7 +350,7 @@ fn one_pass<T: Sc, F: Factory<T>>(sc: &Scenario, rep: &mut RunReport, first: boo
                     }
                 }
             }
-            Op::IntoSequential => {
+            Op::IntoSequential | Op::IntoParallel => {
                 // the Jacobian is computed by another implementation from here on: equality
                 // across the conversion is C11's subject (toleranced), not a re-query
                 prev_jac = None;
@@ -392,11 +405,3 @@ fn one_pass<T: Sc, F: Factory<T>>(sc: &Scenario, rep: &mut RunReport, first: boo
         }));
     }
 }
-
-/// was the problem converted to the sequential flavour before op `i`?
-fn converted_before(sc: &Scenario, i: usize) -> bool {
-    sc.ops[..i]
-        .iter()
-        .any(|o| matches!(o, Op::IntoSequential | Op::Fit | Op::FitWithStatistics))
-}
-
